@@ -38,6 +38,17 @@ from .transaction import (
 )
 
 
+def _count_slot(signed: set, slot) -> int:
+    """
+    Counts a signature filed under slot (input, key[, leaf]):
+    1 and the slot is remembered in signed, 0 if this call signed for the slot already.
+    """
+    if slot in signed:
+        return 0
+    signed.add(slot)
+    return 1
+
+
 def read_write(sin, sout, sz=None, chunk_size=32) -> int:
     """Reads l or all bytes from sin and writes to sout"""
     # number of bytes written
@@ -642,8 +653,14 @@ class PSBTView:
         input_index: int,
         inp=None,
         sighash=SIGHASH.DEFAULT,
+        signed=None,
     ) -> int:
-        """Sign taproot input with key. Signs with internal or leaf key."""
+        """
+        Sign taproot input with key. Signs with internal or leaf key.
+        Signatures for (input, key, leaf) slots that are in signed already are not counted again.
+        """
+        if signed is None:
+            signed = set()
         # get input ourselves if not provided
         inp = inp or self.input(input_index)
         if not inp.is_taproot:
@@ -662,7 +679,7 @@ class PSBTView:
             # TODO: maybe better to put into internal key sig field
             inp.final_scriptwitness = Witness([wit])
             # no need to sign anything else
-            return 1
+            return _count_slot(signed, (input_index, None))
         counter = 0
         # negate if necessary
         pub = ec.PublicKey.from_xonly(key.xonly())
@@ -688,7 +705,7 @@ class PSBTView:
             if sighash != SIGHASH.DEFAULT:
                 sigdata += bytes([sighash])
             inp.taproot_sigs[(pub, leaf)] = sigdata
-            counter += 1
+            counter += _count_slot(signed, (input_index, pub, leaf))
         return counter
 
     def sign_input(
@@ -701,16 +718,58 @@ class PSBTView:
         It's helpful if your wallet knows more than provided in PSBT.
         As PSBTView is read-only it can't change anything in PSBT,
         that's why you may need extra_scope_data.
+
+        If root is a descriptor all its private keys sign the same input scope,
+        the signatures of the input are written to sig_stream once
+        and every key a signature is filed under is counted once.
         """
         if i < 0 or i >= self.num_inputs:
             raise PSBTError("Invalid input number")
 
+        inp = self.input(i)
+        if extra_scope_data is not None:
+            inp.update(extra_scope_data)
+
+        if hasattr(root, "keys"):
+            keys = [k for k in root.keys if hasattr(k, "is_private") and k.is_private]
+        else:
+            keys = [root]
+        # (input, key[, leaf]) slots a signature was filed under
+        signed = set()
+        counter = None
+        for k in keys:
+            res = self._sign_scope(i, inp, k, sighash, signed)
+            if res is not None:
+                counter = (counter or 0) + res
+        # nothing to write: public keys only or sighash flag is not authorised
+        if counter is None:
+            return 0
+
+        if inp.is_taproot:
+            if inp.final_scriptwitness:
+                ser_string(sig_stream, b"\x08")
+                ser_string(sig_stream, inp.final_scriptwitness.serialize())
+            for pub, leaf in inp.taproot_sigs:
+                ser_string(sig_stream, b"\x14" + pub.xonly() + leaf)
+                ser_string(sig_stream, inp.taproot_sigs[(pub, leaf)])
+        else:
+            for pub in inp.partial_sigs:
+                ser_string(sig_stream, b"\x02" + pub.serialize())
+                ser_string(sig_stream, inp.partial_sigs[pub])
+        return counter
+
+    def _sign_scope(self, i, inp, root, sighash, signed):
+        """
+        Signs input scope inp of input i with one key, signatures are stored in inp.
+        Returns the number of signatures filed under slots that are not in signed yet,
+        or None if the key can't sign or the sighash flag of the input is not authorised.
+        """
         # if WIF - fingerprint is None
         fingerprint = None
         # if descriptor key
         if hasattr(root, "origin"):
             if not root.is_private:  # pubkey can't sign
-                return 0
+                return None
             if root.is_extended:  # use fingerprint only for HDKey
                 fingerprint = root.fingerprint
             else:
@@ -722,10 +781,6 @@ class PSBTView:
         rootpub = root.get_public_key()
         sec = rootpub.sec()
         pkh = hashes.hash160(sec)
-
-        inp = self.input(i)
-        if extra_scope_data is not None:
-            inp.update(extra_scope_data)
 
         # SIGHASH.DEFAULT is only for taproot, fallback to SIGHASH.ALL for other inputs
         required_sighash = sighash
@@ -747,7 +802,7 @@ class PSBTView:
                 SIGHASH.DEFAULT,
                 SIGHASH.ALL,
             } or required_sighash not in {SIGHASH.DEFAULT, SIGHASH.ALL}:
-                return 0
+                return None
 
         # get all possible derivations with matching fingerprint
         bip32_derivations = set()
@@ -800,6 +855,7 @@ class PSBTView:
                 i,
                 inp,
                 sighash=inp_sighash,
+                signed=signed,
             )
             # sign with all derived keys
             for prv, pub in derived_keypairs:
@@ -808,14 +864,8 @@ class PSBTView:
                     i,
                     inp,
                     sighash=inp_sighash,
+                    signed=signed,
                 )
-            if inp.final_scriptwitness:
-                ser_string(sig_stream, b"\x08")
-                ser_string(sig_stream, inp.final_scriptwitness.serialize())
-
-            for pub, leaf in inp.taproot_sigs:
-                ser_string(sig_stream, b"\x14" + pub.xonly() + leaf)
-                ser_string(sig_stream, inp.taproot_sigs[(pub, leaf)])
             return counter
 
         h = self.sighash(i, sighash=inp_sighash, input_scope=inp)
@@ -826,7 +876,7 @@ class PSBTView:
             sig = (root.key if hasattr(root, "origin") else root).sign(h)
             # sig plus sighash flag
             inp.partial_sigs[rootpub] = sig.serialize() + bytes([inp_sighash])
-            counter += 1
+            counter += _count_slot(signed, (i, rootpub))
         for prv, pub in derived_keypairs:
             # already signed above with the same key, don't count it twice
             if pub == rootpub and pub in inp.partial_sigs:
@@ -834,10 +884,7 @@ class PSBTView:
             sig = prv.sign(h)
             # sig plus sighash flag
             inp.partial_sigs[pub] = sig.serialize() + bytes([inp_sighash])
-            counter += 1
-        for pub in inp.partial_sigs:
-            ser_string(sig_stream, b"\x02" + pub.serialize())
-            ser_string(sig_stream, inp.partial_sigs[pub])
+            counter += _count_slot(signed, (i, pub))
         return counter
 
     def sign_with(self, root, sig_stream, sighash=SIGHASH.DEFAULT) -> int:
@@ -851,15 +898,9 @@ class PSBTView:
         """
         counter = 0
         for i in range(self.num_inputs):
-            # check if it's a descriptor, and sign with
-            # all private keys in this descriptor
-            if hasattr(root, "keys"):
-                for k in root.keys:
-                    if hasattr(k, "is_private") and k.is_private:
-                        counter += self.sign_input(i, k, sig_stream, sighash=sighash)
-            else:
-                # just sign with the key
-                counter += self.sign_input(i, root, sig_stream, sighash=sighash)
+            # sign with the key, or if it's a descriptor
+            # with all private keys in this descriptor
+            counter += self.sign_input(i, root, sig_stream, sighash=sighash)
             # add separator
             sig_stream.write(b"\x00")
         return counter
